@@ -1,0 +1,37 @@
+//go:build verif
+
+// Verification hook (compiled only with -tags verif; see /verif/DESIGN.md §5). Add-only.
+package ctrl
+
+import (
+	"github.com/metrico/cloki-config/config"
+	"github.com/metrico/qryn/ctrl/logger"
+)
+
+// VerifSetProject replaces the maintenance entry points of a project, so that Init / Rotate can be driven
+// against an in-memory database instead of ClickHouse connections. nil keeps the current entry point.
+// It returns a function that restores the previous entry points.
+func VerifSetProject(name string,
+	init func(*config.ClokiBaseDataBase, logger.ILogger) error,
+	upgrade func([]config.ClokiBaseDataBase, logger.ILogger) error,
+	rotate func([]config.ClokiBaseDataBase, logger.ILogger) error) (restore func()) {
+	old, had := projects[name]
+	p := old
+	if init != nil {
+		p.init = init
+	}
+	if upgrade != nil {
+		p.upgrade = upgrade
+	}
+	if rotate != nil {
+		p.rotate = rotate
+	}
+	projects[name] = p
+	return func() {
+		if had {
+			projects[name] = old
+		} else {
+			delete(projects, name)
+		}
+	}
+}
